@@ -135,6 +135,7 @@ def getUn (s : MSt) (u : Nat) : MSt × MUn :=
 def setUn (s : MSt) (x : MUn) : MSt := { s with uns := s.uns.map (fun y => if y.u == x.u then x else y) }
 
 def stepItem (cfg : Cfg) (s : MSt) : TItem → MSt
+  | .exc c => fail s s!"exception {c} escaped into the reactor"
   | .ev e =>
     match e with
     | .send o keys group _ expect =>
